@@ -272,6 +272,8 @@ func cause(op []string, prev *rState) string {
 			return "delete"
 		}
 		return "upload"
+	case "rr":
+		return "read-redeem"
 	}
 	return op[0]
 }
@@ -511,6 +513,23 @@ func oracle(prop string) func(ops, outs []string) *corr.Violation {
 				if dl.Cmp(dw) > 0 {
 					add(i, "liability-grew:"+why, fmt.Sprintf("liabilities %s -> %s (delta %s) but wallet delta %s", prev.liabilities(), cur.liabilities(), dl, dw))
 				}
+				if op[0] == "rr" && okTx && len(status) >= 2 {
+					// a redeemed read marker: the reader's pool held its price and lost exactly that; the blobber's stake
+					// pool gained at most that
+					price, j, bi := p64(status[1]), atoi(op[3]), atoi(op[2])
+					had, has := prev.rps[j], cur.rps[j]
+					if price < 0 || price > had {
+						add(i, "read-redeem-overdraft", fmt.Sprintf("marker priced %s redeemed against a read pool of %d", status[1], had))
+					}
+					if had-has != price {
+						add(i, "read-pool-debit-ne-price", fmt.Sprintf("read pool %d -> %d, marker priced %s", had, has, status[1]))
+					}
+					if cb, pb := cur.blobs[bi], prev.blobs[bi]; cb != nil && pb != nil {
+						if got := (cb.sp.reward + cb.sp.stake) - (pb.sp.reward + pb.sp.stake); got > had-has {
+							add(i, "read-reward-exceeds-debit", fmt.Sprintf("stake pool of b%d gained %d, read pool lost %d", bi, got, had-has))
+						}
+					}
+				}
 				if cur.liabilities().Cmp(big.NewInt(cur.wallet)) > 0 && prev.liabilities().Cmp(big.NewInt(prev.wallet)) <= 0 {
 					add(i, "liabilities-exceed-wallet:"+why, fmt.Sprintf("liabilities %s > wallet %d", cur.liabilities(), cur.wallet))
 				}
@@ -569,7 +588,7 @@ func outsRender(out string) string {
 // touched: the allocation index an operation addresses.
 func touched(op []string) (int, bool) {
 	switch op[0] {
-	case "fin", "cancel", "wpl", "upd", "commit", "resp":
+	case "fin", "cancel", "wpl", "upd", "commit", "resp", "rr":
 		return atoi(op[1]), true
 	}
 	return 0, false
